@@ -28,8 +28,8 @@ ASSUMPTIONS = [
     "set elements / mapping keys are restricted to hashable types (leaves and tuples of them) because the decoder builds set/dict",
 ]
 REQUIRED_TAGS = {
-    "quick": ["has:nonascii", "has:node", "has:boundary-int", "type:variant", "type:mapping"],
-    "thorough": ["has:nonascii", "has:node", "has:boundary-int", "type:variant", "type:mapping"],
+    "quick": ["disturbed-serializer", "has:nonascii", "has:node", "has:boundary-int", "type:variant", "type:mapping"],
+    "thorough": ["disturbed-serializer", "has:nonascii", "has:node", "has:boundary-int", "type:variant", "type:mapping"],
 }
 
 SENTINEL = 0x0123456789ABCDEF
@@ -101,6 +101,31 @@ def make_probe(gtirb, log):
     return Probe
 
 
+def disturb(gtirb, ser, k):
+    """calls that must leave a Serialization instance as good as new: encodes
+    that fail part-way, decodes of types with unknown codecs, decodes of
+    truncated input.  Whatever they raise is irrelevant here."""
+    attempts = [
+        lambda: ser.encode(io.BytesIO(), [1, 2, 300], "sequence<uint8_t>"),
+        lambda: ser.encode(io.BytesIO(), ("a", 5), "tuple<string,string>"),
+        lambda: ser.encode(io.BytesIO(), {"k": object()}, "mapping<string,uint8_t>"),
+        lambda: ser.encode(io.BytesIO(), {1, "x"}, "set<uint16_t>"),
+        lambda: ser.encode(io.BytesIO(), gtirb.Variant(0, "s"), "variant<uint8_t,string>"),
+        lambda: ser.decode(b"\x01" + b"\x00" * 7 + b"ab", "mapping<string,foo>"),
+        lambda: ser.decode(b"\x00" * 8, "sequence<bar<uint8_t>>"),
+        lambda: ser.decode(b"\x00" * 8, "set<tuple<baz,uint64_t>>"),
+        lambda: ser.decode(b"\x00" * 16, "tuple<qux,variant<uint8_t>>"),
+        lambda: ser.decode(b"\x00" * 8, "variant<foo,string>"),
+        lambda: ser.decode(b"\x05", "sequence<uint64_t>"),
+        lambda: ser.encode(io.BytesIO(), "x", "a<b"),
+    ]
+    for j in range(3):
+        try:
+            attempts[(k + 5 * j) % len(attempts)]()
+        except Exception:  # noqa
+            pass
+
+
 def run_case(case):
     gtirb = _gt()
     res = pbt.CaseResult()
@@ -120,7 +145,12 @@ def run_case(case):
 
     for prefer_uuid in (False, True):
         pv = auxref.to_python(tree, jv, gtirb, lookup, prefer_uuid=prefer_uuid)
-        ser = gtirb.Serialization()
+        # a fresh serializer, or the process-wide one every AuxData uses; either
+        # may have seen failing / foreign calls before (no state may survive them)
+        ser = gtirb.AuxData.serializer if case.get("shared") else gtirb.Serialization()
+        if case.get("disturb") is not None:
+            res.tag("disturbed-serializer")
+            disturb(gtirb, ser, case["disturb"])
         buf = io.BytesIO()
         try:
             ser.encode(buf, pv, tname)
@@ -259,7 +289,11 @@ def int_table():
 
 
 def strategy():
-    return auxgen.typed_values(max_depth=4)
+    from hypothesis import strategies as st
+
+    return st.tuples(auxgen.typed_values(max_depth=4), st.booleans(), st.one_of(st.none(), st.integers(0, 40))).map(
+        lambda t: dict(t[0], shared=t[1], disturb=t[2])
+    )
 
 
 def run_job(job):
